@@ -70,3 +70,7 @@ pub fn leak_and_subtract(v: Vec<u8>, a: Instant, b: Instant) -> u128 {
     std::mem::forget(v);
     a.duration_since(b).as_nanos()
 }
+
+/// a single-threaded cell made shareable by hand (control for C12.L12 / C18.T10: no manual Send/Sync impls)
+pub struct LocalThing(std::cell::Cell<u64>);
+unsafe impl Sync for LocalThing {}
